@@ -116,6 +116,23 @@ def _let(pat, scr):
     """the condition `let PAT = SCR`; `let Some(..) = xs.first() / xs.split_first()` (binders only) is `!xs.is_empty()`"""
     if re.fullmatch(r"[A-Za-z_][\w:]*\(_\)", pat):
         pat = pat[:-3] + "($)"          # whether the payload is bound or ignored does not matter for the test
+    if pat in ("v1::None", "Option::None"):
+        return _not(_let("v1::Some($)", scr))
+    if pat.startswith("{") and pat.endswith("}"):
+        # a plain struct pattern tests its fields: `let S { a: None, b: S2 { c: Some(_), .. }, d } = x` is `x.a is None && x.b.c is Some`
+        c = None
+        for part in _split_top(pat[1:-1], ","):
+            part = part.strip()
+            if not part or part == ".." or ":" not in part:
+                continue
+            name, sub = part.split(":", 1)
+            if re.fullmatch(r"[$_]", sub):
+                continue
+            k = _let(sub, ("field", scr, name))
+            if k == ("lit", True):
+                continue
+            c = k if c is None else ("op", "&&", [c, k])
+        return c if c is not None else ("lit", True)
     if scr[0] == "call" and scr[1] in SLICE_HEADS and len(scr[2]) == 1 and re.fullmatch(r"(v1|Option)::Some\([$_(),]*\)", pat):
         return ("op", "Not", [("call", "slice::is_empty", [scr[2][0]])])
     if pat.startswith("[") and pat.endswith("]") and ".." not in pat and re.fullmatch(r"[\[\]$_(),]*", pat):
@@ -2663,6 +2680,12 @@ class Norm:
                 if sc[0] == "try" and sc[1][0] == "call" and sc[1][1] in ("Ok", "Some") and len(sc[1][2]) == 1:
                     return sc[1][2][0]           # Ok(x)? is x (an inlined helper that cannot fail on this path)
                 inner = sc[1] if sc[0] == "try" else sc
+                if inner[0] == "call" and inner[1] == "ok_or" and len(inner[2]) == 2 and inner[2][0][0] == "call" and inner[2][0][1] == "Option::map" \
+                        and len(inner[2][0][2]) == 2 and inner[2][0][2][1][0] == "closure" and inner[2][0][2][1][2] == 1:
+                    # o.map(f).ok_or(e)?  ==  f(o.ok_or(e)?)
+                    return _apply(inner[2][0][2][1], ("try", ("call", "ok_or", [inner[2][0][2][0], inner[2][1]])))
+                if inner[0] == "call" and inner[1] == "Option::map" and len(inner[2]) == 2 and inner[2][1][0] == "closure" and inner[2][1][2] == 1:
+                    return _apply(inner[2][1], ("try", inner[2][0]))          # o.map(f)?  ==  f(o?)
                 if inner[0] == "call" and inner[1] == "then" and len(inner[2]) == 2:
                     return ("early", [(_not(inner[2][0]), ("ret", _NONE))], inner[2][1])      # c.then(|| v)?  ==  if !c { return None }  v
                 return sc if sc[0] == "try" else ("try", sc)
